@@ -404,6 +404,12 @@ func (g *Gen) lookupLocal(name string, e *SpecEnv) *ssa.Alloc {
 	if g.fn.Pkg != nil && pos.IsValid() {
 		if sc := g.fn.Pkg.Pkg.Scope().Innermost(pos); sc != nil {
 			if _, o := sc.LookupParent(name, pos); o != nil {
+				// the implicit variables of a type switch share one position: tell them apart by type
+				for _, a := range cands {
+					if a.Pos() == o.Pos() && types.Identical(a.Type().(*types.Pointer).Elem(), o.Type()) {
+						return a
+					}
+				}
 				for _, a := range cands {
 					if a.Pos() == o.Pos() {
 						return a
